@@ -1,6 +1,6 @@
 \* C13 exhaustive: null record and disabled logger (ScopeConfigurator) next to an enabled one
 CONSTANTS NT = 1  NS = 1  PipeNames = {"sb"}  NRes = 1
-          MaxRecs = 2  MaxSets = 0  MaxArgs = 1  MaxFlush = 1  MaxNull = 1  LgSet = {1, 3}  MaxScope = 1  MaxNest = 1
+          MaxRecs = 2  MaxSets = 0  MaxArgs = 1  MaxFlush = 1  MaxNull = 1  MaxAdd = 0  LgSet = {1, 3}  MaxScope = 1  MaxNest = 1
           NSev = 0  NBody = 1  NTs = 0  NId = 0  NFl = 0  NAK = 0  NAV = 0  MaxMap = 0  NEv = 0  NName = 0
           GenDepth = 0  Hist = FALSE  Dev = {}
 INIT Init
